@@ -1192,6 +1192,24 @@ fn c13_read2_crc_mismatch_first_block() {
     kani::cover!(x == 1);
 }
 
+/// Same with the card's memory concrete (the CRC of each block is then a
+/// constant and only the corruption is symbolic): cheap enough for every change.
+#[kani::proof]
+#[kani::unwind(516)]
+fn c13_read2_crc_mismatch_first_block_fixed_data() {
+    let mut card = timed(Card::new_ready(KIND_SDHC, true), (0, 0, 0));
+    card.base = 10;
+    let x: u16 = kani::any();
+    kani::assume(x != 0);
+    card.corrupt_crc = Some(x);
+    card.corrupt_only_block = Some(10);
+    let mut d = driver(card, Some(KIND_SDHC), true);
+    let mut blocks = [Block::new(), Block::new()];
+    let r = d.read(&mut blocks, BlockIdx(10));
+    assert!(r.is_err(), "sd.crc: multi-block read succeeded although a block's CRC did not match");
+    kani::cover!(x == 1);
+}
+
 /// A command issued while the card still signals busy (left over from the
 /// previous operation): the driver waits for the busy period to end before the
 /// first byte of the frame - also for the CMD55 prefix of application commands.
